@@ -89,7 +89,11 @@ impl MetadataClient for LocalMetadataClient {
             let mut bucket = start_bucket;
             while bucket <= end_bucket {
                 time_index.entry(bucket).or_default().push(path.to_string());
-                bucket += Self::NANOS_PER_HOUR;
+                // (the last hour before i64::MAX has no successor)
+                bucket = match bucket.checked_add(Self::NANOS_PER_HOUR) {
+                    Some(next) => next,
+                    None => break,
+                };
             }
         }
 
@@ -157,7 +161,11 @@ impl MetadataClient for LocalMetadataClient {
                     if let Some(paths) = time_index.get_mut(&bucket) {
                         paths.retain(|p| p != path);
                     }
-                    bucket += Self::NANOS_PER_HOUR;
+                    // (the last hour before i64::MAX has no successor)
+                    bucket = match bucket.checked_add(Self::NANOS_PER_HOUR) {
+                        Some(next) => next,
+                        None => break,
+                    };
                 }
             }
         }
